@@ -494,21 +494,25 @@ func (f Index) Last(prefix []byte) (i Item, err error) {
 	// since database iterator Seek seeks to the
 	// next key if the key that it seeks to is not found
 	// and by getting the previous key, the last one for the
-	// actual prefix is found
-	nextPrefix := incByteSlice(prefix)
-	l := len(prefix)
+	// actual prefix is found.
+	// The upper bound is taken over the complete key prefix (index id
+	// included) and truncated after the incremented byte, so that it is
+	// above every key with the prefix and below every other key: also for
+	// an empty prefix when following indexes hold keys, and for a prefix
+	// that ends with 0xFF bytes.
+	totalPrefix := append(append(make([]byte, 0, len(f.prefix)+len(prefix)), f.prefix...), prefix...)
+	nextPrefix := bytesIncrement(totalPrefix)
 
-	if l > 0 && nextPrefix != nil {
+	if nextPrefix != nil {
 		it.Seek(driver.Key{
 			Prefix: indexKeyPrefixLength,
-			Data:   append(f.prefix, nextPrefix...),
+			Data:   nextPrefix,
 		})
 		it.Prev()
 	} else {
 		it.Last()
 	}
 
-	totalPrefix := append(f.prefix, prefix...)
 	return f.itemFromIterator(it, totalPrefix)
 }
 
